@@ -54,6 +54,11 @@ CLAIMED.update({
         design="DESIGN.md section 3 C15"),
 })
 
+CLAIMED["C11"] = dict(
+    technique="runtime monitoring: shadow copies driven only by change events compared with reads after every transaction; deep-observer path resolution",
+    text="Exploration: observers on every live type of every replica of hostile multi-replica histories; applying each reported text delta / change list / key change set (old values checked) to the observer's previous copy must give exactly the content readable after the transaction, for local and remote transactions alike; one firing per observer and transaction; changed types must reach the deep observer of their root with a path that resolves to them; a type whose rendered content did not change must not fire (events with an empty delta / empty key set are the known finding D8; retain-only deltas that restate attributes are accepted).",
+    design="DESIGN.md section 3 C11")
+
 NOT_YET = {}
 
 
